@@ -50,6 +50,9 @@ Commands:
   coll <sc> <n> { <names> <signals ;> }*n <kspec>
                                            `TrackCollection.smooth` on n tracks (`<kspec>` describes `GaussianKernel(constraint)`)
                                            → (ok | err:<kind>@<position of the failing track>) # <names> <signals ;> # … (n tracks) # <globals>
+  seqx r <dim names ,> <names> <signals ;> <weights>
+                                           `filter_seq(track, weights, dim)` for a weight list over Python's numbers (`filterSeqListX`)
+                                           → ok <weight list after the call> <names> <signals ;> | err:<kind>
   execx r <signal> <kspec>                 `Filter.execute` over Python's numbers (`Model/FilterExt.lean`, scalar `Ext Rat`): the signal and
                                            the weights of a `list` may hold `nan`, `inf`, `-inf`; any total of the weights
                                            → ok <weight list after the call | none> <output signal> | err:<kind> -/
@@ -350,9 +353,29 @@ def handleX (args : List String) : String :=
     | _, _ => "bad-request"
   | _ => "bad-request"
 
+def sigX? (s : String) : Option (List (Option (Ext Rat))) :=
+  (splitTok s ',').mapM (fun t => (ext? t).map toOpt)
+
+def showSigX (l : List (Option (Ext Rat))) : String := showList (fun o => showExt (ofOpt o)) l
+
+def handleSeqX (args : List String) : String :=
+  match args with
+  | [dims, names, sigs, ws] =>
+    let ns := splitTok names ','
+    match (splitTok sigs ';').mapM sigX?, (splitTok ws ',').mapM ext? with
+    | some ss, some k =>
+      if ns.length ≠ ss.length then "bad-request"
+      else
+        match filterSeqListX (ns.zip ss) k (splitTok dims ',') with
+        | .ok (k', t') => s!"ok {showList showExt k'} {joinWith "," (t'.map (·.1))} {joinWith ";" (t'.map (fun p => showSigX p.2))}"
+        | .error e => showErr e
+    | _, _ => "bad-request"
+  | _ => "bad-request"
+
 def handle (cmd : String) (args : List String) : String :=
   match cmd, args with
   | "execx", "r" :: rest => handleX rest
+  | "seqx", "r" :: rest => handleSeqX rest
   | _, _ =>
   match args with
   | "r" :: rest => handleSc scRat cmd rest
